@@ -177,6 +177,20 @@ func c01Run(c vPipeCase) (v vVerdict) {
 		return *fail
 	}
 	_ = tr
+	if len(c.Streams) > 0 && c.Streams[0].Seed%4 == 1 && len(c.Blocks) >= 2 && len(c.Gaps) == 0 {
+		// "no block pattern makes processing crash": the same case once more with the source's frame numbers jumping between
+		// blocks, as after lost data. Nothing is asserted about those records (the stream re-labels what it holds).
+		g := c
+		g.Gaps = make([]int, len(c.Blocks))
+		for k := 1; k < len(g.Gaps); k++ {
+			g.Gaps[k] = []int{0, 0, c.Nsamp + 11, 300, 5, 100000, 1}[(c.Streams[0].Seed/4+k*5)%7]
+		}
+		if _, gfail := vRunPipe(&g, nil); gfail != nil && gfail.Sig != "record-changed-after-publication" {
+			gfail.Msg = "frame numbers jumping between blocks: " + gfail.Msg
+			return *gfail
+		}
+		v.Classes = append(v.Classes, "frame-gaps-between-blocks")
+	}
 	for _, h := range c.Hist {
 		if h.At > 0 {
 			reconfig = true
